@@ -271,10 +271,15 @@ def serial_saturation(logic, funcs):
             if pr.kind != 'return': reasons.append('exception'); continue
             targets, path = pr.value
             if targets: offered += 1; continue
-            if path.notes.get('last_is_self'): reasons.append('the last step was the serial rule on this branch (termination heuristic)')
+            if path.notes.get('maxworlds'): reasons.append('world limit reached (no flag node is added)')
+            elif path.notes.get('last_is_self'):
+                # declining right after its own application is justified only when no successor-less world carries a sentence
+                qs = [q for q in path.notes.get('queries', []) if q[0] == 'branch.has']
+                if qs and all(q[2] is False for q in qs): reasons.append('world limit: n/a; no successor-less world carries a sentence (only the world this rule just created is unserved)')
+                else: reasons.append('the last step was the serial rule on this branch (termination heuristic)')
             elif path.notes.get('maxworlds'): reasons.append('world limit reached (no flag node is added)')
             else: reasons.append('unexplained')
-        bad = [r for r in reasons if 'world limit' not in r]
+        bad = [r for r in reasons if 'world limit' not in r]       # justified declines carry the words 'world limit'
         out.append(discharge(enum_ob(f'C02.saturation.{L}.Serial.skips-justified', not bad and offered >= 1, where=fi2.where, logic=L, rule='Serial',
                                      clause='a world without successor is offered one unless the branch is limit-affected', cex=dict(reasons=sorted(set(bad))))))
     return out
